@@ -105,6 +105,8 @@ func c17CrashHalf(ctx *core.Ctx) error {
 		{Op: "putbytes", K: "a", V: ""},
 		{Op: "put", K: "", V: "v"},
 		{Op: "put", K: "a", V: ""},
+		// not rejected but without effect: deleting the empty key is accepted by both flavours and logged
+		{Op: "del", K: ""},
 	}
 	var cases []json.RawMessage
 	for _, mem := range []uint64{90, 1 << 30} {
@@ -155,7 +157,7 @@ func c17CrashHalf(ctx *core.Ctx) error {
 	ctx.Ev.Bounds["direct_io_sync_wal_sessions"] = ndirect
 	ctx.Ev.Bounds["io_error_sessions"] = nio
 	ctx.Ev.Bounds["crash_sessions"] = len(cases) - nio - ndirect
-	ctx.Ev.Notes = append(ctx.Ev.Notes, "crash observation: 6 rejected calls (nil/empty key or value through either flavour) x {alone, after an accepted put, between two accepted puts} x memstore {90 B, 1 GiB}, run in a traced child; every directory image at a system-call boundary is recovered by a fresh process and must read as the reference without the rejected call")
+	ctx.Ev.Notes = append(ctx.Ev.Notes, "crash observation: 6 rejected calls (nil/empty key or value through either flavour) and the accepted Delete of the empty key x {alone, after an accepted put, between two accepted puts} x memstore {90 B, 1 GiB}, run in a traced child; every directory image at a system-call boundary is recovered by a fresh process and must read as the reference without the rejected call")
 	rs := ctx.Pmap(cases)
 	ctx.Fold(rs, cases)
 	for i, r := range rs {
